@@ -78,6 +78,9 @@ def run(ctx) -> None:
     ctx.rule("R9", "prerequisite: literal text of a pattern is recognised literally (C07/R1-R3), otherwise a rendering is not accepted by its own pattern")
     from sa.report import run_prerequisite
     run_prerequisite(ctx, "C07", ("R1", "R2", "R3"), "R9")
+    ctx.rule("R10", "reading back: the calendar values the parser re-derives from the parsed date are bound to their own strftime directive (decimal), as in cal_info")
+    from checks.c14 import calendar_producers_rule
+    calendar_producers_rule(ctx, "R10")
 
     pats, fields, fmts = part_tables(ctx)
     vinfo = prog.klass("version.V2VersionInfo")
